@@ -754,8 +754,60 @@ class Exec:
             return self.expr(arm["body"], frame)
         raise Unsupported("non-exhaustive match at line %s" % ln)
 
+    def _pull(self, it, state, ln):
+        """Next item of a range / crate-defined iterator, or None when exhausted (std zip stops at the shorter one)."""
+        if isinstance(it, RangeV):
+            lo, hi = it.lo, it.hi
+            if not (isinstance(lo, T) and lo.is_num() and isinstance(hi, T) and hi.is_num()):
+                raise Unsupported("range with symbolic bounds at line %s" % ln)
+            i = state.setdefault(id(it), int(lo.value()))
+            if i >= int(hi.value()) + (1 if it.incl else 0):
+                return None
+            state[id(it)] = i + 1
+            return T.num(i, INT)
+        if isinstance(it, Struct) and (it.ty, "next") in self.crate.fns:
+            r = self.call(it.ty, "next", it, [])
+            if not isinstance(r, Opt):
+                raise Unsupported("next() of %s is not an Option at line %s" % (it.ty, ln))
+            return r.v if r.some else None
+        if isinstance(it, ListIter) and not it.enum:
+            i = state.setdefault(id(it), it.lo)
+            if i >= it.hi:
+                return None
+            state[id(it)] = i + 1
+            return Ref(Place(it.arr, i)) if it.mutable else it.arr[i]
+        raise Unsupported("iterator of kind %s at line %s" % (type(it).__name__, ln))
+
     def e_for(self, e, frame):
         it = self.expr(e["iter"], frame)
+        generic = (isinstance(it, Struct) and (it.ty, "next") in self.crate.fns) or \
+            (isinstance(it, ZipIter) and not (isinstance(it.a, ListIter) and isinstance(it.b, ListIter)))
+        if generic:
+            state = {}
+            try:
+                for _ in range(4096):
+                    if isinstance(it, ZipIter):
+                        a = self._pull(it.a, state, e.get("ln"))
+                        if a is None:
+                            break
+                        b = self._pull(it.b, state, e.get("ln"))
+                        if b is None:
+                            break
+                        item = (a, b)
+                    else:
+                        item = self._pull(it, state, e.get("ln"))
+                        if item is None:
+                            break
+                    self.bind(frame, e["pat"], item)
+                    try:
+                        self.block(e["body"], frame)
+                    except ContinueSig:
+                        pass
+                else:
+                    raise Unsupported("for loop did not terminate within 4096 symbolic iterations at line %s" % e.get("ln"))
+            except BreakSig:
+                pass
+            return UNIT
         if isinstance(it, (ListIter, ZipIter)):
             def items(li):
                 for k in range(li.lo, li.hi):
@@ -952,6 +1004,16 @@ class Exec:
                     return self.call(ty, m, robj, args)
             if m == "into_iter":
                 return AbsIter([])   # opaque: only carried around, never advanced by the code under contract
+            if (robj.ty, "next") in self.crate.fns:
+                # an Iterator implemented in the crate (IterBinomial): the adaptors below are the std ones (A-LIB)
+                if m == "skip" and isinstance(args[0], T) and args[0].is_num():
+                    for _ in range(int(args[0].value())):       # eager: the crate's iterators have no effect but their own state
+                        self.call(robj.ty, "next", robj, [])
+                    return robj
+                if m == "zip":
+                    return ZipIter(robj, args[0])
+                if m in ("by_ref", "into_iter"):
+                    return robj
             raise Undecided("lost anchor: method %s::%s at line %s" % (robj.ty, m, ln))
         if isinstance(robj, Opt):
             if m == "unwrap":
@@ -987,6 +1049,8 @@ class Exec:
             if m == "len":
                 return T.num(robj.hi - robj.lo, UINT)
             return ListIter(arr, robj.lo, robj.hi, m == "iter_mut")
+        if isinstance(robj, RangeV) and m == "zip":
+            return ZipIter(robj, args[0])
         if isinstance(robj, RangeV) and m == "contains":
             x = self.deref(args[0]) if isinstance(args[0], Ref) else args[0]
             c = And(robj.lo.le(x), x.le(robj.hi) if robj.incl else x.lt(robj.hi))
